@@ -9,8 +9,8 @@ import (
 
 func init() {
 	register(&Rule{
-		Name: "OPTAGREE",
-		Doc: "every conv.Option that j2t.toFlags hands to the native converter as a flag bit is also read by the portable Go converter (some function of conv/j2t other than toFlags loads that Options field in the !amd64 || go1.25 build): an option honoured only by one implementation makes native and portable outputs diverge",
+		Name:    "OPTAGREE",
+		Doc:     "every conv.Option that j2t.toFlags hands to the native converter as a flag bit is also read by the portable Go converter (some function of conv/j2t other than toFlags loads that Options field in the !amd64 || go1.25 build): an option honoured only by one implementation makes native and portable outputs diverge",
 		Configs: "P",
 		Floor:   map[string]int{"P": 9},
 		Run:     runOptAgree,
